@@ -47,4 +47,19 @@ open Generated in
 theorem generated_frame_ok_ir_block :
     irBlockRead.all (fun n => irBlockReset.contains n || irBlockConst.contains n) = true := by decide +kernel
 
+/-- class-level containers that are mutated in place and shared by all instances, with the reason why no history reaches a block
+    through them -/
+def allowedClassShared : List (String × String) :=
+  [ ("smt_encoding/singleton.py:Singleton._instances", "registry of the metaclass: holds the one stateless Connectors object") ]
+
+open Generated in
+/-- state that outlives an object: every class-level container that some method mutates in place is rebound per instance in
+    `__init__` (then the class-level binding is only a default that is never shared), or is on the allow-list -/
+theorem generated_class_state_ok :
+    classShared.all (fun e => !e.2.2 || e.2.1 || (allowedClassShared.map (·.1)).contains e.1) = true := by decide +kernel
+
+open Generated in
+/-- state that outlives a call: no parameter with a mutable default value is mutated in place -/
+theorem generated_defaults_ok : mutableDefaults.all (fun e => !e.2) = true := by decide +kernel
+
 end GasolVerif.Frame
